@@ -37,12 +37,18 @@ func quotient(root map[string]any, at any, args ...any) any {
 			case i == 0:
 				iq = ii
 			case isFloat:
+				if ii == 0 {
+					panic(fmt.Errorf("divide by zero"))
+				}
 				fq /= float64(ii)
 			default:
 				iq /= ii
 			}
 		case float32, float64:
 			f, _ := asFloat(v)
+			if 0 < i && f == 0.0 {
+				panic(fmt.Errorf("divide by zero"))
+			}
 			switch {
 			case i == 0:
 				fq = f
